@@ -24,6 +24,7 @@ type ClScenario struct {
 	IDs         []string         `json:"ids"`
 	Maps        []map[string]int `json:"maps"` // id -> config variant; -1 = nil configuration
 	FactoryFail []string         `json:"factoryFail"`
+	FailOnce    []string         `json:"failOnce"` // the factory fails for these ids the first time it is asked, then works
 	NeverReady  []string         `json:"neverReady"`
 	SlowStop    []string         `json:"slowStop"`
 	End         string           `json:"end"` // stop | cancel | close
@@ -104,10 +105,22 @@ func runClScenario(sc ClScenario) clResult {
 	rec := &evRec{t0: time.Now(), last: time.Now()}
 	var live atomic.Int32
 	var inst atomic.Int32
+	var onceMu sync.Mutex
+	failedOnce := map[string]bool{}
 	factory := func(ctx context.Context, id string, cfg *httpserver.Config, _ slog.Handler) (httpcluster.VerifServerRunner, error) {
 		if in(sc.FactoryFail, id) {
 			rec.add("FE:%s", hx(id))
 			return nil, errors.New("factory failed")
+		}
+		if in(sc.FailOnce, id) {
+			onceMu.Lock()
+			first := !failedOnce[id]
+			failedOnce[id] = true
+			onceMu.Unlock()
+			if first {
+				rec.add("FE:%s", hx(id))
+				return nil, errors.New("factory failed (transient)")
+			}
 		}
 		n := int(inst.Add(1))
 		rec.add("FA:%s:%d:%d", hx(id), cfgIndex(cfg), n)
@@ -255,7 +268,7 @@ func clHeader(sc ClScenario, r clResult) string {
 		hung = 1
 	}
 	b, _ := json.Marshal(sc)
-	return fmt.Sprintf("maps=%s ff=%s nr=%s end=hung%d.live%d scn~%s", strings.Join(maps, ","), enc(sc.FactoryFail), enc(sc.NeverReady), hung, r.live,
+	return fmt.Sprintf("maps=%s ff=%s fo=%s nr=%s end=hung%d.live%d scn~%s", strings.Join(maps, ","), enc(sc.FactoryFail), enc(sc.FailOnce), enc(sc.NeverReady), hung, r.live,
 		base64.RawURLEncoding.EncodeToString(b))
 }
 
@@ -303,6 +316,8 @@ func genClScenario(r interface {
 			sc.NeverReady = append(sc.NeverReady, id)
 		case 2:
 			sc.SlowStop = append(sc.SlowStop, id)
+		case 3:
+			sc.FailOnce = append(sc.FailOnce, id)
 		}
 	}
 	return sc, kind
@@ -313,6 +328,8 @@ var clCorpus = []ClScenario{
 	{IDs: []string{"a", "a:stop"}, Maps: []map[string]int{{"a": 0}, {"a": 1, "a:stop": 2}}, End: "stop", EndAfter: 2}, // finding C16-F1 (open)
 	{IDs: []string{"a", "b"}, Maps: []map[string]int{{"a": 0, "b": 0}, {"a": 0, "b": 1}}, FactoryFail: []string{"b"}, End: "cancel", EndAfter: 2},
 	{IDs: []string{"a", "b"}, Maps: []map[string]int{{"a": 0, "b": 0}}, NeverReady: []string{"a"}, End: "close", EndAfter: 1},
+	// a transient factory failure: the same map delivered again must start the missing server
+	{IDs: []string{"a", "b"}, Maps: []map[string]int{{"a": 0, "b": 0}, {"a": 0, "b": 0}}, FailOnce: []string{"b"}, End: "stop", EndAfter: 2},
 }
 
 func runCluster(o Opts) {
